@@ -10,7 +10,7 @@ CFG = {'streams': [{'name': 'C04',
          'deeply nested def/class sources; both modes; non-trivial = inherit declared and nested definitions present',
  'explanation': "Theorems: strict lookup = own value, else (only if inherited) the NEAREST ancestor's, else error; a second definition on a node is "
                 'DuplicateVariable and changes nothing, a fresh one changes no other (node, name); lazy forcing yields the first definition per node '
-                'and fails exactly when two definitions evaluate to the same node, naming both; lazy inherited lookup walks to the nearest ancestor.',
+                'and fails exactly when two definitions evaluate to the same node, naming both; lazy inherited lookup walks to the nearest ancestor; these lazy statements are proved for a pure evaluator AND for the stateful forcing of the interpreter model (lazy_force_refines_force_pairs, lazy_force_spec_interp, lazy_force_ok_iff_distinct_nodes_interp, lazy_scoped_lookup_rule).',
  'partial': [],
  'assumptions': ['tree-sitter queries are an external: raw matches are recorded by calling QueryCursor::matches directly on the stanza queries and '
                  'on the merged file query',
